@@ -468,6 +468,11 @@ func mergeRowRanges(explicit []keyType, rrs []*btpb.RowRange) []simpleRange {
 		case *btpb.RowRange_EndKeyOpen:
 			sr.end = ek.EndKeyOpen
 		}
+		if len(sr.end) != 0 && bytes.Compare(sr.start, sr.end) >= 0 {
+			// An empty range, e.g. (k, k): it holds no row, and the engines must not be
+			// handed a range whose start lies beyond its end.
+			continue
+		}
 		srs = append(srs, sr)
 	}
 	return mergeSimpleRanges(srs)
